@@ -58,22 +58,32 @@ def follow(ctx, rule, fn, types, extra=None):
         return any(isinstance(c, ast.Call) and isinstance(c.func, ast.Name) and c.func.id == "isinstance" and c.args and isinstance(c.args[0], ast.Name) and c.args[0].id in types
                    for c in ast.walk(t))
 
+    def decidable(t):
+        # a test the scenario answers without any type fact (`not other.transform.is_identity()`)
+        if extra is None:
+            return False
+        try:
+            decide(t)
+            return True
+        except AnalysisError:
+            return False
+
     def run(stmts):
         for s in stmts:
             if isinstance(s, ast.Expr) and isinstance(s.value, ast.Constant):
                 continue
-            if isinstance(s, ast.If) and (dispatchy(s.test) or extra is not None and extra(s.test) is not None):
+            if isinstance(s, ast.If) and (dispatchy(s.test) or decidable(s.test)):
                 r = run(s.body if decide(s.test) else s.orelse)
                 if r:
                     return True
                 continue
-            if any(isinstance(n, ast.IfExp) and (dispatchy(n.test) or extra is not None and extra(n.test) is not None) for n in ast.walk(s)):
+            if any(isinstance(n, ast.IfExp) and (dispatchy(n.test) or decidable(n.test)) for n in ast.walk(s)):
                 # a conditional expression decided by the scenario: keep the selected operand
                 import copy as _copy
 
                 class _Pick(ast.NodeTransformer):
                     def visit_IfExp(self, n):
-                        if dispatchy(n.test) or extra is not None and extra(n.test) is not None:
+                        if dispatchy(n.test) or decidable(n.test):
                             return self.visit(n.body if decide(n.test) else n.orelse)
                         return self.generic_visit(n)
 
